@@ -161,7 +161,11 @@ def merge_rules(ck):
         call, st, cond, e = ae[0]
         ok = [u(a) for a in call.args] == ['correspondence[node1]', 'correspondence[node2]']
         loops = [l for l in mod.ancestors(call) if isinstance(l, ast.For)]
-        ok = ok and len(loops) == 1 and u(loops[0].iter) in ('molecule.edges', 'molecule.edges()') and any(s is loops[0] for s in merge.body)
+        ok = ok and len(loops) == 1 and u(loops[0].iter) in ('molecule.edges', 'molecule.edges()', 'molecule.edges(data=True)', 'molecule.edges.data()', 'molecule.edges.items()') \
+            and any(s is loops[0] for s in merge.body)
+        # the loop names the two ends of the bond first (with or without its attributes)
+        tg = loops[0].target if ok else None
+        ok = ok and isinstance(tg, ast.Tuple) and len(tg.elts) in (2, 3) and isinstance(tg.elts[0], (ast.Name, ast.Tuple))
         # only self-loops may be skipped
         rel = stmts_with_env(merge, lambda s_: s_ is st, stmts=loops[0].body) if loops else []
         atoms = flow.atoms_of(rel[0][1]) if rel else {('?',)}
